@@ -259,6 +259,36 @@ def ext_cases(seed, tier, consts, pid):
         add(f, [('R', d8), ('R', b'ab\0'), ('R', errp0)], args, gd(0, 0, 0, 1, writable=[(2, 0, 4)], fail='none'), bad='size')
     return cs
 
+# ------------------------------------------------------------------ family (b1): time and message strings
+def misc_cases(seed, tier, consts):
+    """asctime_s, ctime_s, strerror_s: string producers that delegate to the C library; every dmax around the length of the text,
+    valid and out-of-range arguments; dest dirty"""
+    import time as _t
+    rng = random.Random(seed * 29 + 13); cs = []; n = [0]
+    def add(func, blocks, args, g, **meta):
+        n[0] += 1; meta.update(cls='sweep-misc', func=func, gd=g); cs.append(vlib.Case('m%d' % n[0], func, blocks, args, meta))
+    days = ['Sun', 'Mon', 'Tue', 'Wed', 'Thu', 'Fri', 'Sat']; mons = ['Jan', 'Feb', 'Mar', 'Apr', 'May', 'Jun', 'Jul', 'Aug', 'Sep', 'Oct', 'Nov', 'Dec']
+    tms = [(99, 0, 1, 0, 0, 0, 5, 0, True), (124, 11, 31, 23, 59, 59, 2, 365, True), (0, 5, 9, 7, 8, 9, 6, 159, True),
+           (99, 12, 1, 0, 0, 0, 5, 0, False), (99, 0, 0, 0, 0, 0, 5, 0, False), (99, 0, 1, 24, 0, 0, 5, 0, False), (99, 0, 1, 0, 60, 0, 5, 0, False),
+           (99, 0, 1, 0, 0, 62, 5, 0, False), (99, 0, 1, 0, 0, 0, 7, 0, False), (99, 0, 1, 0, 0, 0, 5, 366, False), (-1, 0, 1, 0, 0, 0, 5, 0, False), (8100, 0, 1, 0, 0, 0, 5, 0, False)]
+    for (y, mo, md, h, mi, se, wd, yd, ok) in tms:
+        text = ('%s %s %2d %02d:%02d:%02d %d\n' % (days[wd % 7], mons[mo % 12], md, h, mi, se, 1900 + y)).encode() if ok else None
+        for dmax in (1, 2, 10, 25, 26, 27, 40, 119, 120, 121, 200):
+            ref = None
+            if ok: ref = ('ok', list(text) + [0], None) if dmax >= 26 else ('fail',)
+            elif dmax >= 26: ref = ('fail',)
+            add('asctime_s', [('R', fam_copy.garbage(rng, dmax))], [(0, 0), dmax, UNK, y, mo, md, h, mi, se, wd, yd],
+                gd(0, 0, dmax, 1, producer=True, slack=True, fail='ret', copylike=True, ref=ref), tm=(y, mo, md, h, mi, se, wd, yd), valid=ok)
+    for t in (0, 86399, 951782400, 2147483647, -1, 253402300799, 253402300800):
+        for dmax in (1, 10, 25, 26, 27, 119, 120, 200):
+            add('ctime_s', [('R', fam_copy.garbage(rng, dmax))], [(0, 0), dmax, UNK, t],
+                gd(0, 0, dmax, 1, producer=True, slack=True, fail='ret', copylike=True, ref=None), t=t)
+    for en in (0, 1, 2, 22, 34, 84, 400, 401, 407, 410, 9999, -1):
+        for dmax in (1, 2, 3, 4, 5, 8, 20, 60, 100):
+            add('strerror_s', [('R', fam_copy.garbage(rng, dmax))], [(0, 0), dmax, en, UNK],
+                gd(0, 0, dmax, 1, producer=True, slack=True, fail='ret', copylike=True, ref=None), errnum=en)
+    return cs
+
 # ------------------------------------------------------------------ family (b2): both operands inside one object (C07)
 def _isect(a, b): return max(a[0], b[0]) < min(a[1], b[1])
 
